@@ -1,6 +1,6 @@
 """C18 The IMUL_RCP reciprocal is exact for every divisor."""
 import astq
-from rules import decode, jit
+from rules import decode, jit, sshash
 
 LEVEL = 'other'
 TECHNIQUE = 'control-dependence check of the no-op guard in every engine (decoder path enumeration) + definition check of the power-of-two predicate'
@@ -17,3 +17,4 @@ def run(ctx, R):
     decode.rule_rcp(ctx, R, F)
     jit.rule_rcp(ctx, R, 'x86')
     jit.rule_lw_sib(ctx, R, 'x86', F)
+    sshash.rule_rules(ctx, R, F)
